@@ -17,6 +17,8 @@
 From Coq Require Import List Arith Bool ZArith QArith Qreals Reals Permutation.
 From Similari Require Import Base.Num Model.Kalman Proofs.KalmanProofs Proofs.KalmanTransfer Proofs.KalmanExact.
 From SimilariGen Require Import Consts.
+From SimilariGen Require ScalarCost.
+From Similari Require Proofs.CostProofs.
 Import ListNotations.
 
 Section Generic.
@@ -187,6 +189,22 @@ Proof. intros d _. exact (cost_with_gate_consistent _ d). Qed.
 Theorem cost_gate_consistent_point : forall d : Q, (0 <= d)%Q ->
     (point_calculate_cost Qops d true == CHI2_UPPER_BOUND - point_calculate_cost Qops d false)%Q.
 Proof. intros d _. exact (cost_with_gate_consistent _ d). Qed.
+
+(* The same two statements about the TRANSLATED bodies of Universal2DBoxKalmanFilter::calculate_cost and
+   Point2DKalmanFilter::calculate_cost (gen/ScalarCost.v, regenerated from the Rust source on every run; proofs in
+   Proofs/CostProofs.v), and the hand model used above is, by computation, the translated function. *)
+Theorem cost_gate_consistent_box_translated : forall d : Q, (0 <= d)%Q ->
+    (ScalarCost.box_calculate_cost Qops d true == CHI2_UPPER_BOUND - ScalarCost.box_calculate_cost Qops d false)%Q.
+Proof. exact CostProofs.cost_gate_consistent_box. Qed.
+
+Theorem cost_gate_consistent_point_translated : forall d : Q, (0 <= d)%Q ->
+    (ScalarCost.point_calculate_cost Qops d true == CHI2_UPPER_BOUND - ScalarCost.point_calculate_cost Qops d false)%Q.
+Proof. exact CostProofs.cost_gate_consistent_point. Qed.
+
+Theorem cost_model_is_translation : forall (d : Q) (inverted : bool),
+    Kalman.box_calculate_cost Qops d inverted = ScalarCost.box_calculate_cost Qops d inverted
+    /\ Kalman.point_calculate_cost Qops d inverted = ScalarCost.point_calculate_cost Qops d inverted.
+Proof. exact cost_hand_model_is_translation. Qed.
 
 Theorem cost_same_gate_box : forall d : Q, (0 <= d)%Q -> (d < CHI2_UPPER_BOUND)%Q ->
     (box_calculate_cost Qops d false == CHI2_UPPER_BOUND <-> box_calculate_cost Qops d true == 0)%Q.
